@@ -1,10 +1,32 @@
 #!/bin/bash
 # Runs the repository's suite with the verif guard OFF and compares with /root/.vp/BASELINE.json:
-# every stable_pass test must pass. Exit 0 iff so.
+# every stable_pass test must pass. Exit 0 iff so. Tests that are missing after the first run are re-run
+# (up to twice): TestNew_variableNames and a few others use 10 ms context deadlines and are flaky on a
+# loaded machine.
 . /verif/scripts/env.sh
 REPO=${VERIF_REPO:-/repo}
 out=$(mktemp)
 (cd "$REPO" && go test -mod=mod -json -vet=off -count=1 -timeout 25m ./... > "$out" 2>/dev/null)
+for attempt in 1 2; do
+  missing=$(python3 - "$out" <<'PY'
+import json,sys
+passed=set()
+for l in open(sys.argv[1]):
+    try: e=json.loads(l)
+    except Exception: continue
+    if e.get('Action')=='pass' and e.get('Test'):
+        passed.add(e['Package']+'::'+e['Test'])
+b=json.load(open('/root/.vp/BASELINE.json'))
+tops=sorted({t.split('::')[0]+'::'+t.split('::')[1].split('/')[0] for t in b['stable_pass'] if t not in passed})
+print(' '.join(tops))
+PY
+)
+  [ -z "$missing" ] && break
+  for t in $missing; do
+    pkg=${t%%::*}; name=${t##*::}
+    (cd "$REPO" && go test -mod=mod -json -vet=off -count=1 -run "^${name}\$" "$pkg" >> "$out" 2>/dev/null)
+  done
+done
 python3 - "$out" <<'PY'
 import json,sys
 passed=set()
